@@ -44,9 +44,11 @@ PROPS = {
         dict(kind="core", profile="C01", mask="out,keys,vals", preds="c01", quick=Q, thorough=T),
         dict(kind="macro", profile="C01", preds="pure", quick=300, thorough=8000)]),
     "C02": dict(theorems=["parts/keys/coq|CLK|Props_C02.v"], parts=[
-        dict(kind="ext", name="keys", quick=1500, thorough=30000)]),
-    "C03": dict(theorems=["Props/C03.v"], parts=[
-        dict(kind="macro", profile="C03", preds="once,pure", quick=400, thorough=10000)]),
+        dict(kind="ext", name="keys", quick=1500, thorough=30000),
+        dict(kind="macro", profile="C02", preds="pure", quick=300, thorough=8000)]),
+    "C03": dict(theorems=["Props/C03.v", "Props/C18.v"], parts=[
+        dict(kind="macro", profile="C03", preds="once,pure", quick=400, thorough=10000),
+        dict(kind="sched", mode="sharing", quick=120, thorough=3000)]),
     "C04": dict(theorems=["Props/C04.v"], parts=[
         dict(kind="core", profile="C04", mask="keys,qset", preds="c04,wf", quick=Q, thorough=T),
         dict(kind="macro", profile="C04", preds="limit", quick=300, thorough=8000)]),
@@ -73,7 +75,8 @@ PROPS = {
     "C13": dict(theorems=["Props/C13.v"], parts=[
         dict(kind="macro", profile="C13", preds="frame", quick=400, thorough=10000)]),
     "C14": dict(theorems=["Props/C14.v"], parts=[
-        dict(kind="macro", profile="C14", preds="iso,pure", quick=400, thorough=10000)]),
+        dict(kind="macro", profile="C14", preds="iso,pure", quick=400, thorough=10000),
+        dict(kind="sched", mode="sharing", quick=120, thorough=3000)]),
     "C17": dict(theorems=["parts/locks/coq|CLL|Props_C17.v"], parts=[
         dict(kind="locks"),
         dict(kind="sched", mode="deadlock", quick=500, thorough=0)]),
@@ -253,7 +256,7 @@ def build_harness(run, crate):
 def split_cases(text):
     cases, cur = [], []
     for line in text.splitlines():
-        if line.startswith("CASE") or line.startswith("RTCASE"):
+        if line.startswith("CASE") or line.startswith("RTCASE") or line.startswith("PCASE"):
             cur = [line]
         elif line.startswith("END"):
             cur.append(line)
@@ -632,6 +635,10 @@ def check_sched_case(lines, table):
             deadlock = "deadlock=1" in l
             if deadlock:
                 problems.append("DEADLOCK " + l[6:])
+        elif t[0] in ("RA", "RB") and head[1].startswith("p-"):
+            # overlapping lookups of a key that is stored and not removed: both must be served
+            if "exec=1" in l:
+                problems.append("MISS f%d: a lookup that overlapped another lookup of the same stored key ran the body again (%s)" % (f, l))
         elif t[0] in ("RA", "RB", "Q", "P"):
             m = re.search(r"call (\d+) (\d+) .*exec=\d+ enc=(\d+)", l) if t[0] in ("Q", "P") else None
             if m and table[int(m.group(1))]["ret"] == 0 and int(m.group(3)) != expect(int(m.group(1)), int(m.group(2))):
@@ -681,6 +688,7 @@ def part_sched(run, part):
         return
     table = corpus_table()
     inputs = {c[0].split()[1]: c for c in split_cases(text.replace("CCASE", "CASE"))}
+    inputs = {k: [l.replace("PCASE", "CASE", 1) if i == 0 else l for i, l in enumerate(v)] for k, v in inputs.items()}
     outs, cur = {}, None
     for l in open(of):
         if l.startswith("CCASE"):
@@ -697,7 +705,12 @@ def part_sched(run, part):
             reached += 1
         if any("b_blocked=1" in l for l in lines):
             blocked += 1
-        mine = [p for p in problems if (p.startswith("DEADLOCK") if want == "deadlock" else not p.startswith("DEADLOCK"))]
+        if want == "deadlock":
+            mine = [p for p in problems if p.startswith("DEADLOCK")]
+        elif want == "sharing":
+            mine = [p for p in problems if p.startswith("MISS")]
+        else:
+            mine = [p for p in problems if not p.startswith("DEADLOCK")]
         if dl:
             n_dead += 1
         if mine:
